@@ -476,7 +476,8 @@ fn cli_loop(doc: &[u8], prog: &str, indent: usize, flags: &str) -> String {
         });
         let cls = if seq_first_key_multiline_plain(doc) {
             "loader-K7"
-        } else if printed_later {
+        } else if printed_later && alias_class(doc, &name) == "anchor-outside-result" {
+            // declared once in the input and printed, but after the alias
             "anchor-after-alias"
         } else {
             alias_class(doc, &name)
